@@ -351,7 +351,19 @@ func c05Shapes() []*E {
 	for _, w := range []string{"int8", "int64", "uint", "uint8", "uint64", "float32", "float64", "named"} {
 		base = append(base, ZT(Int(9), w), ZT(Int(0), w))
 	}
+	// long sequences (code paths that switch strategy above some length), with hashable and
+	// unhashable elements
+	base = append(base, c05Big(func(i int) *E { return Int(int64(i)) }), c05Big(func(i int) *E { return List(Int(int64(i))) }),
+		c05Big(func(i int) *E { return Hash([]string{"k"}, []*E{Int(int64(i))}) }), ZT(c05Big(func(i int) *E { return Int(int64(i)) }), "[]int"))
 	return base
+}
+
+func c05Big(el func(i int) *E) *E {
+	var xs []*E
+	for i := 0; i < 60; i++ {
+		xs = append(xs, el(i))
+	}
+	return List(xs...)
 }
 
 var c05UnaryExprs = []string{"x", "not x", "-x", "+x", "x|abs", "x|upper", "x|lower", "x|trim", "x|capitalize", "x|title", "x|length", "x|first", "x|last", "x|reverse", "x|sort", "x|keys", "x|join(',')", "x|join", "x|split(',')", "x|slice(1)", "x|slice(0, 2)", "x|slice(-1)",
@@ -366,7 +378,7 @@ var c05BinaryExprs = []string{"x + y", "x - y", "x * y", "x / y", "x % y", "x ^ 
 	"max(x, y)", "min(x, y)", "range(x, y)", "range(1, 5, y)", "range(x, y, y)", "merge(x, y)", "cycle(x, y)", "x is divisible_by(y)", "x is same_as(y)", "x is matches(y)", "date(x, y)", "random(x, y)", "x|batch(y)"}
 
 func TestC05Shapes(t *testing.T) {
-	r := NewRec(t, "C05", "bounded exhaustive: ~125 unary expressions (every operator, filter, function and test of the core extension, attribute/index access incl. x[undefined]) x ~55 Go value shapes (nil, scalars of every width, strings, untyped and typed slices, arrays, untyped and typed maps incl. non-string keys, structs, pointers incl. nil, time, []byte, named types, Stringer), and ~50 binary expressions x all pairs of 16 representative shapes, each in print / if / for / set position; non-trivial = the value is not a map[string]interface{} / []interface{} / string / int")
+	r := NewRec(t, "C05", "bounded exhaustive: ~125 unary expressions (every operator, filter, function and test of the core extension, attribute/index access incl. x[undefined]) x ~60 Go value shapes (nil, scalars of every width, strings, untyped and typed slices, arrays, untyped and typed maps incl. non-string keys, structs, pointers incl. nil, time, []byte, named types, Stringer), and ~50 binary expressions x all pairs of 22 representative shapes (incl. strings hostile as patterns/separators/formats and 60-element lists of scalars, lists and maps), each in print / if / for / set position; non-trivial = the value is not a map[string]interface{} / []interface{} / string / int")
 	defer r.Flush()
 	r.SetExhaustive()
 	shapes := c05Shapes()
@@ -381,7 +393,9 @@ func TestC05Shapes(t *testing.T) {
 		}
 	}
 	pairShapes := []*E{Null(), Int(0), Int(2), Int(-1), Str(""), Str("ab"), Str("3"), List(), List(Int(1), Int(2)), Hash([]string{"k"}, []*E{Int(1)}),
-		ZT(List(Str("a")), "[]string"), ZT(List(Int(1)), "[]int"), ZT(Hash([]string{"k"}, []*E{Int(1)}), "map[string]int"), ZT(Hash([]string{"k"}, []*E{Str("v")}), "map[int]string"), ZT(Hash([]string{"Name"}, []*E{Str("n")}), "struct"), ZPtr(Null()), ZT(Int(2), "float64"), ZT(Int(0), "uint8")}
+		ZT(List(Str("a")), "[]string"), ZT(List(Int(1)), "[]int"), ZT(Hash([]string{"k"}, []*E{Int(1)}), "map[string]int"), ZT(Hash([]string{"k"}, []*E{Str("v")}), "map[int]string"), ZT(Hash([]string{"Name"}, []*E{Str("n")}), "struct"), ZPtr(Null()), ZT(Int(2), "float64"), ZT(Int(0), "uint8"),
+		// strings that are hostile as patterns, separators and formats; a long list of unhashable elements
+		Str("z-a"), Str("([\\"), Str("%d%s%"), c05Big(func(i int) *E { return List(Int(int64(i))) })}
 	for _, ex := range c05BinaryExprs {
 		for _, x := range pairShapes {
 			for _, y := range pairShapes {
